@@ -295,6 +295,13 @@ def frame_check(it, c, env, old, name):
           if gk in it.ghost and gk in it.ghost_at_entry and not listed('lock:' + fp):
             it.oblige(f'{name}/frame[lock:{fp}]', it.ghost[gk].t == it.ghost_at_entry[gk].t, 'frame',
                       {'text': f'lock {fp} is in the same state as at entry (not listed in modifies)'})
+        elif isinstance(wv, VTuple) and isinstance(lv, VTuple) and wv.items and all(isinstance(x, VObj) for x in wv.items) and not was.frozen:
+          # a tuple of heap objects: the same objects (identity, not dataclass equality), each framed on its own
+          same = z3.BoolVal(len(lv.items) == len(wv.items)) if len(lv.items) != len(wv.items) else z3.And([it.ident(a, b) for a, b in zip(lv.items, wv.items)])
+          it.oblige(f'{name}/frame[{fp}]', same, 'frame', {'text': f'{fp} holds the same objects (not listed in modifies)'})
+          if len(lv.items) == len(wv.items):
+            for i, (a, b) in enumerate(zip(lv.items, wv.items)):
+              walk(a, b, f'{fp}[{i}]')
         elif isinstance(wv, (VInt, VBool, VReal, VOpt, VOpaque, VNoneT, VTuple)) and not was.frozen:
           try:
             same = it.ident(lv, wv) if isinstance(wv, (VOpt, VOpaque, VNoneT)) else it.eq(lv, wv)
